@@ -564,6 +564,8 @@ def make_builtins(interp):
         return interp.iter_(x)
 
     def b_len(x):
+        if hasattr(x, '_vf_len'):
+            return x._vf_len(interp)
         if isinstance(x, (list, tuple, str, SymDict, SymSet, dict, ParamsView)):
             return len(x)
         if isinstance(x, I.Inst):
